@@ -424,6 +424,23 @@ func Guard(f func() error) (err error) {
 	return f()
 }
 
+// HangLimit is how long a single case may run before it is reported as a hang
+// (cases take micro- to milliseconds; concurrency cases a few seconds at most).
+var HangLimit = 120 * time.Second
+
+// watch arms a real-time watchdog for one case.  If the check has not returned
+// when it fires, a library call loops or blocks for ever: the case is recorded
+// as a failure and the process exits (the stuck call cannot be interrupted, so
+// shrinking is not attempted).
+func watch[C any](kind string, c C) (stop func()) {
+	t := time.AfterFunc(HangLimit, func() {
+		RecordFailure(kind, c, fmt.Errorf("HANG: the case did not finish within %v (cases normally take milliseconds): a library call loops or blocks", HangLimit))
+		fmt.Println("VP-HANG", kind)
+		os.Exit(1)
+	})
+	return func() { t.Stop() }
+}
+
 // Prop describes one kind of generated check.
 type Prop[C any] struct {
 	Kind  string
@@ -461,7 +478,9 @@ func Run[C any](t *testing.T, p Prop[C]) {
 	rapid.Check(t, func(rt *rapid.T) {
 		c := p.Gen(rt)
 		Eval(p.Kind)
+		stop := watch(p.Kind, c)
 		err := Guard(func() error { return p.Check(c) })
+		stop()
 		if err != nil {
 			RecordFailure(p.Kind, c, err)
 			rt.Fatalf("%s: %v", p.Kind, err)
@@ -522,7 +541,10 @@ func RunConcurrent[C any](t *testing.T, p Prop[C], base, batch, goroutines int) 
 		}
 		CurrentJSON(kind, cases)
 		Eval(kind)
-		if err := run(cases); err != nil {
+		stop := watch(kind, cases)
+		err := run(cases)
+		stop()
+		if err != nil {
 			RecordFailure(kind, cases, err)
 			rt.Fatalf("%s: %v", kind, err)
 		}
@@ -577,7 +599,10 @@ func Fail(t testing.TB, kind string, c any, err error) {
 func CheckCase[C any](t testing.TB, kind string, c C, check func(C) error) bool {
 	t.Helper()
 	Eval(kind)
-	if err := Guard(func() error { return check(c) }); err != nil {
+	stop := watch(kind, c)
+	err := Guard(func() error { return check(c) })
+	stop()
+	if err != nil {
 		Fail(t, kind, c, err)
 		return false
 	}
